@@ -85,14 +85,9 @@ def run (line : String) : String :=
     | some obs =>
       -- the Send calls of the spare senders are hidden as well
       let hid := hiddenLabels cfg.senders.length ++ (List.range spare).map (fun j => Label.sendCall (kinds.length + j))
-      let rec go (ss : List St) (os : List Obs) (ts : List String) (i : Nat) : String :=
-        match os, ts with
-        | o :: os', t :: ts' =>
-          match advance hid ss o with
-          | [] => s!"rejected@{i}:{t} after {ss.length} compatible states"
-          | ss' => go ss' os' ts' (i + 1)
-        | _, _ => "accepted"
-      go (closeSet hid [init0 cfg]) obs toks 0
+      match firstRejectedWith hid cfg obs with
+      | none => "accepted"
+      | some (i, n) => s!"rejected@{i}:{toks.getD i ""} after {n} compatible states"
   | [cfgS] => if cfgS.isEmpty then "bad-op" else "bad-op"
   | _ => "bad-op"
 
